@@ -171,6 +171,7 @@ struct NodeCfg {
     uint8_t rxfill = 0;      // initial content of the receive buffer
     uint32_t proc_us = 0;    // per-frame processing cost (virtual microseconds)
     uint32_t tick_jitter = 0; // ms
+    int ctx_alias = 0;        // k > 0: this interface's context pointer is the first interface's plus k * 2^32 (equal low 32 bits; the core never dereferences it)
     bool null_ctx = false;    // the daemon hands the core a NULL interface context for this interface (a single-interface port's habit; index 0 cast to a pointer)
 };
 
@@ -273,8 +274,9 @@ struct Node {
     // address from the node's slot array; the core keeps one record per context pointer it has ever seen
     uint8_t ctxslot[1024];
     int ctx_gen = 0;
-    void *ctx() { return cfg.null_ctx && ctx_gen == 0 ? nullptr : (ctx_gen == 0 ? (void *)this : (void *)&ctxslot[ctx_gen - 1]); }
-    bool owns_ctx(const void *p) const { return (p == nullptr && cfg.null_ctx) || p == (const void *)this || ((const uint8_t *)p >= ctxslot && (const uint8_t *)p < ctxslot + sizeof ctxslot); }
+    void *alias_ctx = nullptr;
+    void *ctx() { if (alias_ctx && ctx_gen == 0) return alias_ctx; return cfg.null_ctx && ctx_gen == 0 ? nullptr : (ctx_gen == 0 ? (void *)this : (void *)&ctxslot[ctx_gen - 1]); }
+    bool owns_ctx(const void *p) const { return (p == nullptr && cfg.null_ctx) || (alias_ctx && p == alias_ctx) || p == (const void *)this || ((const uint8_t *)p >= ctxslot && (const uint8_t *)p < ctxslot + sizeof ctxslot); }
     // frames (and the tick) that arrived while the thread was busy: the socket buffer, ordered by arrival sequence number
     std::map<uint64_t, std::shared_ptr<Event>> pending;
     uint64_t wake_t = 0, wake_seq = 0; bool wake_set = false;
